@@ -36,6 +36,7 @@ def run(ctx) -> None:
     ctx.guard("C11.slice-zero", slice_zero)
     ctx.guard("C11.same-labware", identity_eq_rule, "C11.same-labware")
     ctx.guard("C11.snapshot", history_readonly)
+    ctx.guard("C11.owner", history_not_trimmed)
     ctx.guard("C11.report", report)
     ctx.guard("C11.distribute", distribute)
     ctx.guard("C11.per-call", per_call_ops)
@@ -47,6 +48,9 @@ def run(ctx) -> None:
     ctx.guard("C11.lvh-note", none_concat_rule, "C11.lvh-note", ("EvoWorklist.transfer", "FluentWorklist.transfer", "Labware.condense_log", "Labware.log", "Labware.add", "Labware.remove"),
               "recording the operation (an unlabelled operation is valid)")
     ctx.reuse("C11.snapshot", c02.ctor)
+    from . import objmodel
+
+    ctx.guard("C11.owner", objmodel.labware_model, "C11.owner")
     # the LVH note counts len(steps) - 1 per well: it is the number of extra pairs only if every step of every well is pipetted
     from . import c06 as _c06
 
@@ -106,6 +110,35 @@ def _is_snapshot(term: ast.AST, selfn: str) -> Optional[bool]:
         if attr_of_name(base, selfn, "_volumes"):
             return False if isinstance(term.slice, ast.Slice) else None
     return None
+
+
+def history_not_trimmed(ctx) -> None:
+    """Entries leave the history only in condense_log: no `del self._history[..]`, slice re-binding, pop() or clear() elsewhere."""
+    rule = "C11.owner"
+    hits = []
+    for cname in ("Labware", "Trough"):
+        cls = ctx.prog.class_by_name(cname)
+        if cls is None:
+            continue
+        for m in cls.methods.values():
+            if m.name in ("condense_log", "__init__", "__deepcopy__", "__copy__") or not m.params:
+                continue
+            selfn = m.params[0]
+
+            def hist(e):
+                return isinstance(e, ast.Attribute) and is_name(e.value, selfn) and e.attr in ("_history", "_labels")
+
+            for x in own_walk(m.node):
+                if isinstance(x, ast.Delete) and any(isinstance(t, ast.Subscript) and hist(t.value) for t in x.targets):
+                    hits.append((m, x))
+                elif isinstance(x, ast.Assign) and any(hist(t) for t in x.targets) and isinstance(x.value, ast.Subscript) and isinstance(x.value.slice, ast.Slice):
+                    hits.append((m, x))
+                elif isinstance(x, ast.Call) and isinstance(x.func, ast.Attribute) and x.func.attr in ("pop", "clear", "remove") and hist(x.func.value):
+                    hits.append((m, x))
+    for m, x in hits:
+        ctx.rep.refuted(rule, f"{m.qualname}/trim", f"`{stmt_key(x)[:60]}` removes entries from the history outside condense_log: earlier states disappear (and a later condense_log counts from the wrong end)", where=m.where(x))
+    if not hits:
+        ctx.rep.holds(rule, "Labware/history-append-only", "entries leave the history only in condense_log")
 
 
 def history_readonly(ctx) -> None:
@@ -250,6 +283,11 @@ def snapshot(ctx) -> None:
                         return [v]
 
                     vals += parts(a.value, node.id)
+                    if isinstance(a.value, ast.Name):
+                        # a new list put together in a local first: what is appended to that local ends up in the history
+                        for sub in own_walk(f.node):
+                            if isinstance(sub, ast.Call) and isinstance(sub.func, ast.Attribute) and sub.func.attr in ("append", "insert", "extend") and is_name(sub.func.value, a.value.id):
+                                vals += list(sub.args[-1:])
             for v in vals:
                 n += 1
                 t = fv.res.resolve(v, node.id)
